@@ -5,6 +5,7 @@ CONSTANTS
   ReqSeq <- MCReqSeq
   BFamily <- BFamExport
   Export = TRUE
+  CheckE4 = FALSE
   Dev_S20_RuleOffRaises = FALSE
   Dev_S20b_UnofferedSessionAsserts = FALSE
 INVARIANT TypeOK
